@@ -163,3 +163,45 @@ def validate(config: dict[str, Any], transforms: Any = None) -> EnOptConfig:  # 
 
 def fl(values: Any) -> list[float]:  # noqa: ANN401
     return [float(v) for v in np.asarray(values, dtype=np.float64).ravel()]
+
+
+# ----------------------------------------------------------------------------
+# Linear scaling transforms for objectives and non-linear constraints
+# ----------------------------------------------------------------------------
+from ropt.transforms.base import NonLinearConstraintTransform, ObjectiveTransform  # noqa: E402
+
+
+class ObjectiveScaler(ObjectiveTransform):
+    """objectives_opt = objectives_user / scales; a negative scale flips the sign (maximization)."""
+
+    def __init__(self, scales: Any, *, flip_weighted: bool = False) -> None:  # noqa: ANN401, D107
+        self._scales = np.asarray(scales, dtype=np.float64)
+        self._flip = flip_weighted
+
+    def to_optimizer(self, objectives: NDArray[np.float64]) -> NDArray[np.float64]:
+        return objectives / self._scales
+
+    def from_optimizer(self, objectives: NDArray[np.float64]) -> NDArray[np.float64]:
+        return objectives * self._scales
+
+    def weighted_objective_from_optimizer(self, weighted_objective: NDArray[np.float64]) -> NDArray[np.float64]:
+        return -weighted_objective if self._flip else weighted_objective
+
+
+class ConstraintScaler(NonLinearConstraintTransform):
+    """constraints_opt = constraints_user / scales (positive scales)."""
+
+    def __init__(self, scales: Any) -> None:  # noqa: ANN401, D107
+        self._scales = np.asarray(scales, dtype=np.float64)
+
+    def bounds_to_optimizer(self, lower_bounds: NDArray[np.float64], upper_bounds: NDArray[np.float64]) -> tuple[Any, Any]:
+        return lower_bounds / self._scales, upper_bounds / self._scales
+
+    def to_optimizer(self, constraints: NDArray[np.float64]) -> NDArray[np.float64]:
+        return constraints / self._scales
+
+    def from_optimizer(self, constraints: NDArray[np.float64]) -> NDArray[np.float64]:
+        return constraints * self._scales
+
+    def nonlinear_constraint_diffs_from_optimizer(self, lower_diffs: NDArray[np.float64], upper_diffs: NDArray[np.float64]) -> tuple[Any, Any]:
+        return lower_diffs * self._scales, upper_diffs * self._scales
